@@ -507,12 +507,17 @@ class Canon:
                     return n
                 env = {b.targets[0].id: b.value for b in binds}
                 body = list(hnode.body)
+                def sub(e_):
+                    t_ = _SubstAll(env)
+                    t_._top = hnode   # (scope-aware: also inside comprehensions / lambdas that do not rebind the name)
+                    return t_.visit(copy.deepcopy(e_))
+
                 while body and isinstance(body[0], ast.Assign) and len(body[0].targets) == 1 and isinstance(body[0].targets[0], ast.Name) and len(body) > 1:
-                    env[body[0].targets[0].id] = subst(body[0].value, env)
+                    env[body[0].targets[0].id] = sub(body[0].value)
                     body = body[1:]
                 if len(body) == 1 and isinstance(body[0], ast.Return) and body[0].value is not None:
                     canon._inlined[id(h)] = canon._inlined.get(id(h), 0) + (1 if depth == 0 else 0)
-                    return subst(body[0].value, env)
+                    return sub(body[0].value)
                 return n
 
             def visit_FunctionDef(self, n):
